@@ -336,6 +336,8 @@ class Check:
             for i, r in enumerate(runs):
                 for s in range(r.get("seeds", 1)):
                     seed = self.seed if s == 0 else splitmix(self.seed, s)
+                    if "seed_base" in r:     # enumerating runs (e.g. the 8 residue classes of a sweep): seeds base, base+1, ...
+                        seed = r["seed_base"] + s
                     jobs.append((seed, r.get("args", []), f"{self.tier}{i}-{s}"))
             with ThreadPoolExecutor(max_workers=cfg.get("parallel", 4)) as ex:
                 results = list(ex.map(lambda j: self.run_one(*j), jobs))
